@@ -296,6 +296,55 @@ func c17Case(c *core.Ctx, idx int) {
 			return
 		}
 	}
+	// a registration made after the type was already used: from then on the registered codec is
+	// the one used for exactly that type at top level and in structs built afterwards
+	for k, in := range insts {
+		if _, has := in.ids[model.TypeTag{Type: markedT}]; has || in.cfg.Validate(markedT, "") != "" {
+			continue
+		}
+		mv := (&gen.VG{R: r, C: model.Cfg{ProtoArrays: in.cfg.ProtoArrays, ProtoTime: in.cfg.ProtoTime}, Budget: 10}).Value(markedT, "")
+		b0, err, pn := marshal(in.p, nil, ptrTo(mv))
+		if want := in.expect(mv); err != nil || pn != "" || !bytes.Equal(b0, want) {
+			rec.Violation("scoping", fmt.Sprintf("%s: top-level value of the marked struct type before any registration: %v %s got %s want %s", in.name, err, pn, hexHead(b0), hexHead(want)), extra)
+			return
+		}
+		nextID++
+		mc := markerCodec{id: nextID, size: markedT.Size()}
+		in.ids[model.TypeTag{Type: markedT}] = nextID
+		in.cfg.Plain[markedT] = model.SpMarker
+		if k%2 == 0 {
+			in.p.RegisterCodec(markedT, mc)
+		} else {
+			in.p.RegisterCodecWithTag(markedT, "", mc)
+		}
+		how := []string{"RegisterCodec", `RegisterCodecWithTag(..., "")`}[k%2]
+		b1, err, pn := marshal(in.p, nil, ptrTo(mv))
+		rec.Eval(2)
+		if want := in.expect(mv); err != nil || pn != "" || !bytes.Equal(b1, want) {
+			rec.Violation("scoping", fmt.Sprintf("%s: after %s for a type that was already used at top level, Marshal of that type does not use the registered codec: %v %s\n  got  %s\n  want %s", in.name, how, err, pn, hexHead(b1), hexHead(want)), extra)
+			return
+		}
+		// another top-level type in between, then the bytes are read back by the registered codec
+		if _, err, pn := marshal(in.p, nil, ptrTo(reflect.ValueOf(int64(7)))); err != nil || pn != "" {
+			rec.Violation("scoping", fmt.Sprintf("%s: Marshal(int64): %v %s", in.name, err, pn), extra)
+			return
+		}
+		back := reflect.New(markedT)
+		if err, pn := unmarshal(in.p, b1, back.Interface()); err != nil || pn != "" {
+			rec.Violation("scoping", fmt.Sprintf("%s: after %s, Unmarshal of what Marshal wrote with the registered codec fails: %v %s", in.name, how, err, pn), extra)
+			return
+		}
+		// a struct built after the registration uses it for its field
+		ht := reflect.StructOf([]reflect.StructField{sf("A", tInt, `plenc:"1"`), sf("L", markedT, `plenc:"2"`)})
+		hv := reflect.New(ht).Elem()
+		hv.Field(0).SetInt(3)
+		b2, err, pn := marshal(in.p, nil, ptrTo(hv))
+		if want := in.expect(hv); err != nil || pn != "" || !bytes.Equal(b2, want) {
+			rec.Violation("scoping", fmt.Sprintf("%s: after %s, a struct built afterwards does not use the registered codec for its field: %v %s\n  got  %s\n  want %s", in.name, how, err, pn, hexHead(b2), hexHead(want)), extra)
+			return
+		}
+		rec.Count("late_registrations", 1)
+	}
 	// the package-level functions still behave like a default-configured instance
 	dt := reflect.StructOf([]reflect.StructField{sf("V", markedT, `plenc:"1"`), sf("N", markStrT, `plenc:"2"`), sf("S", reflect.SliceOf(tString), `plenc:"3"`), sf("T", model.TimeT, `plenc:"4"`), sf("T1", markedT, `plenc:"5,m1"`)})
 	dv := (&gen.VG{R: r, C: model.Cfg{}, Budget: 30}).Value(dt, "")
